@@ -831,8 +831,83 @@ def constructor_items_and_falsy_options_stream(ctx, res):
         for k in env:
             os.environ.pop(k, None)
 
+def leaf_fields_and_blank_variables_stream(ctx, res):
+    """A variable that is set gives the field its value at construction — the text validated like an ASSIGNED text, whatever else
+    the field declares: (a) file name fields with a start directory and a RELATIVE declared default (the variable, relative,
+    absolute or naming a missing file, beats the default; a missing file fails construction); (b) feature flags and booleans without
+    a default, with the variable spelling off (`0`, `off`, `False`, `N`) and on; (c) stripping string fields (blank, tab, Unicode
+    blanks, only the stripped characters), level and mode fields, with a declared default: the variable is NOT the default unless
+    assigning the same text gives the default; a text the field refuses fails construction.  Oracle: construct with the variable
+    set == construct without and assign the text (value or refusal), and a later load_tree does not displace it"""
+    import os
+    import cincoconfig as cc
+    tmp = os.path.realpath(ctx.tmpdir())
+    base = os.path.join(tmp, "leaf-env")
+    for sub in ("logs", "var"):
+        os.makedirs(os.path.join(base, sub), exist_ok=True)
+    for rel in ("logs/app.log", "var/other.log"):
+        with open(os.path.join(base, rel), "w") as fh:
+            fh.write("x")
+    decls = []
+    for text in ("var/other.log", os.path.join(base, "var", "other.log"), "var/missing.log", "logs/app.log"):
+        decls.append(("FilenameField(startdir, relative default)", lambda: cc.FilenameField(startdir=base, default="logs/app.log"), text, {"log": "logs/app.log"}))
+        decls.append(("FilenameField(startdir, exists='file', relative default)", lambda: cc.FilenameField(startdir=base, exists="file", default="logs/app.log"), text, {"log": "logs/app.log"}))
+    for text in ("0", "off", "False", "N", "no", "1", "on", "TRUE", "y", "maybe"):
+        decls.append(("FeatureFlagField()", lambda: cc.FeatureFlagField(), text, {"log": True}))
+        decls.append(("FeatureFlagField(default=True)", lambda: cc.FeatureFlagField(default=True), text, {"log": False}))
+        decls.append(("BoolField()", lambda: cc.BoolField(), text, {"log": True}))
+    for text in ("   ", "\t", "\u2003\u00a0", " x ", "\n"):
+        decls.append(("StringField(transform_strip=True, default)", lambda: cc.StringField(transform_strip=True, default="Untitled"), text, {"log": "from-file"}))
+        decls.append(("StringField(transform_strip=True, required, default)", lambda: cc.StringField(transform_strip=True, required=True, default="Untitled"), text, {"log": "from-file"}))
+        decls.append(("LogLevelField(default)", lambda: cc.LogLevelField(default="info"), text, {"log": "debug"}))
+        decls.append(("ApplicationModeField(default)", lambda: cc.ApplicationModeField(default="production"), text, {"log": "development"}))
+    for text in ("///", "/", "/a/", "//"):
+        decls.append(("StringField(transform_strip='/', default)", lambda: cc.StringField(transform_strip="/", default="index"), text, {"log": "from-file"}))
+    var = "CINCO_T_C14L_PATHS_LOG"
+    for label, mk, text, doc in decls:
+        def build(with_var):
+            s = cc.Schema(env="CINCO_T_C14L")
+            s.paths.log = mk()
+            s.paths.other = cc.IntField(default=1, env=False)
+            if with_var:
+                os.environ[var] = text
+            try:
+                try:
+                    cfg = s()
+                except Exception as e:  # noqa
+                    return None, "refused:" + type(e).__name__
+                if not with_var:
+                    try:
+                        cfg.paths.log = text
+                    except Exception as e:  # noqa
+                        return None, "refused:" + type(e).__name__
+                return cfg, repr(cfg.paths.log)
+            finally:
+                os.environ.pop(var, None)
+        case = {"stream": "leaf-fields-and-blank-variables", "field": label, "variable": text if not os.path.isabs(text) else "<absolute>/var/other.log"}
+        res.case(stable(case), kind="leaf-fields-and-blank-variables")
+        cfg_v, got_v = build(True)
+        cfg_a, got_a = build(False)
+        if got_v != got_a:
+            res.violate("C14:variable-not-held", "a set variable did not give the field the value (or the refusal) that assigning the same text gives — the declared default or "
+                        "something else took its place", dict(case, with_variable=got_v, assigned=got_a))
+            continue
+        if cfg_v is not None:
+            os.environ[var] = text
+            try:
+                try:
+                    cfg_v.load_tree({"paths": dict(doc, other=2)})
+                    after = repr(cfg_v.paths.log)
+                except Exception as e:  # noqa
+                    after = "load raised %s" % type(e).__name__
+            finally:
+                os.environ.pop(var, None)
+            if after != got_v:
+                res.violate("C14:env-lost-to-file", "a later load_tree displaced the value a set variable gave", dict(case, before=got_v, after=after))
+
 def run(ctx, n_quick=120, n_thorough=4000):
     res = Result()
+    guard(res, "C14", leaf_fields_and_blank_variables_stream, ctx, res)
     guard(res, "C14", constructor_items_and_falsy_options_stream, ctx, res)
     guard(res, "C14", names_stream, ctx, res)
     guard(res, "C14", precedence_stream, ctx, res, ctx.n(n_quick, n_thorough))
